@@ -474,7 +474,7 @@ class Interp:
             self.event("decision", st, test=norm_text(st.test), outcome=(c == 0), forced=False, compares=cmps, key=tkey[0] if tkey else None, key_neg=tkey[1] if tkey else None)
             self.ops.assume(st.test, c == 0, env)
             return self.exec_block(st.body if c == 0 else st.orelse, env)
-        self.event("decision", st, test=norm_text(st.test), outcome=None, forced=False, compares=cmps)
+        self.event("decision", st, test=norm_text(st.test), outcome=None, forced=False, compares=cmps, key=tkey[0] if tkey else None, key_neg=tkey[1] if tkey else None)
         env2 = env.clone({})
         self.ops.assume(st.test, True, env)
         a = self.exec_block(st.body, env)
@@ -881,7 +881,7 @@ class Interp:
             if k is None:
                 return self.unknown("dict unpacking", n)
             items.append((self.eval(k, env), self.eval(v, env)))
-        return DictV(items=tuple(items))
+        return DictV(items=tuple(items), born=self.join_depth)
 
     def e_Attribute(self, n, env):
         base = self.eval(n.value, env)
